@@ -26,7 +26,7 @@
    No proofs in this file (Ana/InterTDRecSound.v). *)
 From Coq Require Import ZArith NArith List Bool Arith.
 From CrabV Require Import Base.ZInf Scalar.Itv Ir.Syntax Ir.Cfg Dom.ItvEnv Dom.ItvDomain
-     Fix.Wto Fix.Engine Fix.EngineFS Ana.Transformer Ana.FwdItv Ana.InterSyntax Ana.InterTD.
+     Fix.Wto Fix.WtoCheck Fix.Engine Fix.EngineFS Ana.Transformer Ana.FwdItv Ana.InterSyntax Ana.InterTD.
 Import ListNotations.
 
 (* ------------------------------------------------------------------ widening set *)
@@ -150,10 +150,10 @@ Section TDRec.
            (k : nat) (iteration : nat) (en : env) (g : rgst) {struct k}
     : (nat -> env) * (nat -> env) * rgst :=
     match k with
-    | O => (bot_tab, bot_tab, r_err_set g)
+    | O => (bot_tab, bot_tab, r_err_set (r_setfix (fix_erase f (r_fix g)) g))     (* out of fuel: error flag *)
     | S k' =>
       match body en g with
-      | None => (bot_tab, bot_tab, r_err_set g)
+      | None => (bot_tab, bot_tab, r_err_set (r_setfix (fix_erase f (r_fix g)) g))
       | Some st =>
         let tp := se_pre env rgst st in
         let tq := se_post env rgst st in
@@ -201,3 +201,43 @@ Section TDRec.
   Definition rec_run (depth : nat) (entries : list nat) (init : env) : rgst :=
     fold_left (fun g f => r_lift pop (snd (rfun depth f init (r_lift (push f) g)))) entries rg0.
 End TDRec.
+
+(* ------------------------------------------------------------------ side conditions of the soundness theorem
+   (Ana/InterTDRecSound.v), as executable tests on the configuration:
+     - the entry block of a function of the widening set is not a loop head of its CFG (the stored
+       precondition of such a function is the invariant at its entry block);
+     - an entry function that belongs to the recursive set is in the widening set;
+     - in the call graph WTO of every entry, every call graph cycle through a function that is not in
+       the widening set goes through a head of the nesting of that function (R: the functions
+       reachable from f without entering a head of its nesting; f must not be in R).
+   rec_run_checked sets the error flag when a test fails. *)
+Fixpoint closeN (g : graph) (hs : list nat) (n : nat) (r : list nat) : list nat :=
+  match n with
+  | O => r
+  | S n' => closeN g hs n' (add_all (filter (fun v => negb (nmem v hs)) (flat_map (succs g) r)) r)
+  end.
+Definition nest_ok1 (g : graph) (f : nat) (hs : list nat) : bool :=
+  let init := filter (fun v => negb (nmem v hs)) (succs g f) in
+  let R := closeN g hs (length g) init in
+  negb (nmem f hs) && negb (nmem f R) && forallb (fun v => nmem v R) init &&
+  forallb (fun u => forallb (fun v => nmem v hs || nmem v R) (succs g u)) R.
+Definition nest_okb (p : iprog) (cgwto : nat -> wto) (wset entries : list nat) : bool :=
+  forallb (fun e =>
+    forallb (fun f => nmem f wset ||
+                      match nesting (cgwto e) f with
+                      | Some hs => nest_ok1 (cg_graph p) f hs
+                      | None => true
+                      end) (seq 0 (length p))) entries.
+Definition headv_okb (wtos : nat -> wto) (wset : list nat) : bool :=
+  forallb (fun f => match wtos f with Vertex 0 :: _ => true | _ => false end) wset.
+Definition ent_okb (entries wset recset : list nat) : bool :=
+  forallb (fun e => implb (nmem e recset) (nmem e wset)) entries.
+Definition rec_cfg_okb (p : iprog) (wtos cgwto : nat -> wto) (wset recset entries : list nat) : bool :=
+  headv_okb wtos wset && ent_okb entries wset recset && nest_okb p cgwto wset entries.
+
+Definition rec_run_checked (p : iprog) (voff : N) (maxc : option nat) (exact_reuse : bool)
+           (delay desc efuel ifuel : nat) (wtos cgwto : nat -> wto) (wset recset : list nat)
+           (depth : nat) (entries : list nat) (init : env) : rgst :=
+  if rec_cfg_okb p wtos cgwto wset recset entries
+  then rec_run p voff maxc exact_reuse delay desc efuel ifuel wtos cgwto wset recset depth entries init
+  else r_lift set_err rg0.
